@@ -114,7 +114,7 @@ example : Sound.EnvRel
     simp only [Std.SEnv.lookupFun, List.find?] at hf
     split at hf
     · next heq =>
-      have hn : n = "p" := by simpa [Sym.var] using heq
+      have hn : n = "p" := by have := heq; simp [Sym.var] at this; exact this.symm
       cases hf
       subst hn
       simp [lookup, Term.var]
